@@ -163,9 +163,15 @@ class Program:
                     tree = ast.parse(src, filename=path)
                 except SyntaxError as e:
                     raise AnalysisError(f"cannot parse {rel}: {e}")
-                A.canonicalise(tree)
-                A.set_parents(tree)
                 self.modules[mod] = ModuleInfo(mod, path, rel, tree, src)
+        # helpers that the rules do not name are dissolved into their callers (sa/inline.py), then every
+        # module is brought into the normal form of astutil.canonicalise
+        from . import inline as _inline
+
+        self.inline_notes = _inline.inline_helpers({k: v.tree for k, v in self.modules.items()})
+        for mi in self.modules.values():
+            A.canonicalise(mi.tree)
+            A.set_parents(mi.tree)
         for m in self.modules.values():
             self._index_module(m)
         # resolve bases
